@@ -651,6 +651,7 @@ def check_registrations(case):
     if case.get("label", "UTC") != "UTC":
         date = date.change_scale(case["label"])       # same instant under another time-scale label
     sv0 = StateVector(case["sv"], date, "cartesian", "EME2000")
+    sv_utc = StateVector(case["sv"], Date(case["day"], float(case["sec"])), "cartesian", "EME2000")
     known = list(BUILTIN) + sorted(_proc["bodies"])
     picks = iter(case["picks"] * 50)
     table = {}
@@ -857,6 +858,14 @@ def check_registrations(case):
         held_intact(what)
         spellings_agree(what, name)
         known.pop()
+        if case.get("label", "UTC") != "UTC":
+            # same instant, other time-scale label: the new frame is where it was under UTC
+            lab = arr(sv0.copy(frame=name))
+            utc = arr(sv_utc.copy(frame=name))
+            sr, sv_ = scale_of(lab, utc, arr(sv0))
+            if (np.linalg.norm(lab[:3] - utc[:3]) > 1e-10 * sr + 1e-4 or np.linalg.norm(lab[3:] - utc[3:]) > 1e-10 * sv_ + 1e-7):
+                raise Violation("label-dependent", f"{what}: the probe dated {date} converts to '{name}' as {lab.tolist()}, "
+                                f"the same instant labelled UTC gives {utc.tolist()}")
         # 2b. a point given in the new frame goes into every orientation family - Earth-fixed, inertial,
         #     the frame it hangs off and the other generated frames - and after EVERY single conversion
         #     the pre-existing conversions and the stored offsets are still what they were
